@@ -28,9 +28,48 @@ PARAM_TYPES = [
     # tuples with an unbounded member (PEP 646) before, between and after fixed members
     ty.MixTuple([I], S, [F]), ty.MixTuple([I, ty.Cls(bytes)], S, [F, B_]), ty.MixTuple([], S, [I]), ty.MixTuple([I], S, []),
     ty.MixTuple([], ty.Union(I, NONE), [S, S]),
+    # unions of literals an ordering comparison can split (chained comparisons narrow them link by link)
+    ty.Union(ty.Lit(1), ty.Lit(7)), ty.Union(ty.Lit(0), ty.Lit(2), ty.Lit(40)), ty.Union(ty.Lit(-1), ty.Lit(5), NONE),
+    ty.Union(ty.Lit("a"), ty.Lit("m"), ty.Lit("z")), ty.Union(ty.Lit(1.5), ty.Lit(3)),
 ]
 
 LITS = ["0", "1", "2", "-1", "True", "False", "None", "'a'", "'b'", "''", "1.5", "b'x'", "Color.RED", "Color.GREEN", "Num.ONE"]
+
+
+# literal pools for variables whose inferred value is a UNION OF LITERALS (assigned on two paths)
+NUM_LITS = ["0", "1", "2", "5", "7", "40", "-1", "1.5", "True", "False"]
+STR_LITS = ["'a'", "'b'", "'m'", "'z'", "''", "'ab'"]
+ORDER_OPS = ["<", "<=", ">", ">=", "==", "!="]
+IDENT_OPS = ["==", "!=", "is", "is not"]
+
+
+def family(t: Ty):
+    """'num' / 'str' when every member of the belief is ordered against that family's literals, 'opt-num' / 'opt-str'
+    when None is a member too (only ==, !=, is, is not, in links are generated then), else None."""
+    ms = union_members(t)
+    if not ms:
+        return None
+    fams = set()
+    for m in ms:
+        if m.kind == "NoneT" or m.kind == "Lit" and m.extra.v is None:
+            fams.add("none")
+            continue
+        c = m.extra if m.kind == "Cls" else type(m.extra.v) if m.kind == "Lit" else None
+        if c in (int, float, bool):
+            fams.add("num")
+        elif c is str:
+            fams.add("str")
+        else:
+            return None
+    base = fams - {"none"}
+    if len(base) != 1:
+        return None
+    return ("opt-" if "none" in fams else "") + next(iter(base))
+
+
+def is_literal_union(t: Ty) -> bool:
+    ms = union_members(t)
+    return len(ms) >= 2 and all(m.kind in ("Lit", "NoneT") for m in ms)
 
 
 def is_sized(t: Ty) -> bool:
@@ -311,6 +350,8 @@ class Gen:
             opts.append(lambda: (f"{v} not in ({lit}, {lit2})", v, t, t, "cond:not-in"))
             if lit in ("True", "Color.RED", "None") or lits and isinstance(lv, (bool, prelude.Color)):
                 opts.append(lambda: (f"{v} is {lit}", v, pos, neg, "cond:is-lit"))
+        if family(t):
+            opts.append(lambda: (self.chain(env, v), v, t, t, "cond:chain"))
         opts.append(lambda: (f"{v}", v, t, t, "cond:truthy"))
         opts.append(lambda: (f"not {v}", v, t, t, "cond:not-truthy"))
         if all(is_sized(m) for m in ms) and ms:
@@ -355,18 +396,20 @@ class Gen:
         self.budget -= 1
         deep = depth >= self.max_depth
         choice = r.random()
-        if choice < 0.22 or deep and choice < 0.6:
+        if choice < 0.20 or deep and choice < 0.58:
+            if r.random() < 0.12:
+                return self.lit_union_local(env)[0]
             src, t = self.expr(env)
-            reassignable = [k for k in env if not k.startswith(("n", "i"))]  # never clobber loop counters
+            reassignable = [k for k in env if not k.startswith(("n", "i", "s"))]  # never clobber loop counters
             v = r.choice(reassignable) if reassignable and r.random() < 0.25 else self.fresh()
             env[v] = t
             self.note("stmt:assign")
             return [f"{v} = {src}"]
-        if choice < 0.34 or deep:
+        if choice < 0.30 or deep:
             return self.use(env)
-        if choice < 0.385:
+        if choice < 0.345:
             return self.stored_cond(env, depth, in_loop)
-        if choice < 0.56:
+        if choice < 0.51:
             src, nv, pos, neg = self.cond(env)
             e1, e2 = dict(env), dict(env)
             if nv is not None and pos is not None and pos.kind != "Never":
@@ -398,28 +441,33 @@ class Gen:
                     if k != nv:
                         env[k] = ty.Union(e1[k], e2[k])
             return lines + ([f"use({nv})"] if nv else [])
-        if choice < 0.62:
+        if choice < 0.57:
             return self.loop(env, depth)
-        if choice < 0.66:
+        if choice < 0.61:
             return self.composite(env, depth, in_loop)
-        if choice < 0.74:
+        if choice < 0.67:
             return self.try_(env, depth, in_loop)
-        if choice < 0.82:
+        if choice < 0.71:
+            return self.try_full(env, depth, in_loop)
+        if choice < 0.79:
             return self.match(env, depth, in_loop)
-        if choice < 0.865:
+        if choice < 0.835:
             return self.unpack(env)
-        if choice < 0.88:
+        if choice < 0.85:
             return self.sweep(env)
-        if choice < 0.92 and in_loop:
+        if choice < 0.89:
+            return self.chain_stmt(env, depth, in_loop)
+        if choice < 0.925 and in_loop:
             self.note("stmt:break/continue")
             src, *_ = self.cond(env)
             return [f"if {src}:", f"    {r.choice(['break', 'continue'])}"]
-        if choice < 0.95:
+        if choice < 0.955:
             v = self.pick_var(env)
             self.note("stmt:return")
-            src, *_ = self.cond(env)
-            return [f"if {src}:", f"    return {v or 'None'}"]
-        if choice < 0.97:
+            src, nv, *_ = self.cond(env)
+            # the tested variable is read after the early return, where the condition is known false
+            return [f"if {src}:", f"    return {v or 'None'}"] + ([f"use({nv})"] if nv else [])
+        if choice < 0.975:
             src, nv, pos, neg = self.cond(env)
             self.note("stmt:assert")
             if nv is not None and pos is not None and pos.kind != "Never":
@@ -455,7 +503,7 @@ class Gen:
         """A narrowing condition is evaluated and STORED, the tested variable is then left alone / rebound on some
         paths only / rebound on all paths, and the stored condition is tested afterwards."""
         r = self.rng
-        pool = [k for k in env if not k.startswith(("n", "i", "ok"))]
+        pool = [k for k in env if not k.startswith(("n", "i", "ok", "s"))]
         if not pool:
             return self.use(env)
         v = r.choice(pool)
@@ -525,6 +573,16 @@ class Gen:
             e[el] = tuple_elem(t)
             lines = [f"for {el} in {v}:", f"    use({el})"]
             self.note("stmt:for-iter")
+        elif kind < 0.73:
+            # the loop runs while a variable that starts as a LITERAL is truthy, and the body shrinks it
+            c = self.fresh("s")
+            init, step, t = r.choice([("(1, 2)", "{c}[1:]", ty.VarTuple(I)), ("(1, 'a', None)", "{c}[:-1]", ty.VarTuple(ty.ANY)), ("2", "{c} - 1", I),
+                                      ("'ab'", "{c}[1:]", S), ("[1, 2]", "{c}[1:]", ty.List(I)), ("3", "{c} // 2", I)])
+            e = dict(env)
+            e[c] = t
+            lines = [f"{c} = {init}", f"while {c}:", f"    use({c})", f"    {c} = {step.format(c=c)}"]
+            env[c] = t
+            self.note("stmt:while-literal-shrinks")
         else:
             c = self.fresh("n")
             e = dict(env)
@@ -576,6 +634,306 @@ class Gen:
                 ts = [x[k] for x in (e, eh) if k in x]
                 env[k] = ty.Union(env[k], *ts)
         return lines + self.use(env)
+
+    # ------------------------------------------------------------------ unions of literals, chained comparisons
+    def lit_union_local(self, env, fam=None) -> tuple:
+        """A fresh local that holds one of two or three LITERALS depending on the path taken (conditional expression,
+        if/else, assignment overwritten in an if / a loop / a try body).  returns (lines, var)"""
+        r = self.rng
+        fam = fam or r.choice(["num", "num", "str", "opt-num", "opt-str"])
+        pool = list(NUM_LITS if fam.endswith("num") else STR_LITS)
+        r.shuffle(pool)
+        a, b, c = pool[:3]
+        if fam.startswith("opt-"):
+            b = "None"
+        v = self.fresh("q")
+        path = "flip()" if r.random() < 0.3 else self.cond(env)[0]
+        how = r.choice(["ifexp", "if-else", "if", "elif", "for", "try"])
+        self.note("stmt:literal-union-local-" + how)
+        members = [a, b]
+        if how == "ifexp":
+            lines = [f"{v} = {a} if {path} else {b}"]
+        elif how == "if-else":
+            lines = [f"if {path}:", f"    {v} = {a}", "else:", f"    {v} = {b}"]
+        elif how == "if":
+            lines = [f"{v} = {a}", f"if {path}:", f"    {v} = {b}"]
+        elif how == "elif":
+            lines = [f"if {path}:", f"    {v} = {a}", "elif flip():", f"    {v} = {b}", "else:", f"    {v} = {c}"]
+            members.append(c)
+        elif how == "for":
+            it = self.pick_var(env, lambda t: t.kind in ("List", "VarTuple", "Set", "Seq"))
+            lines = [f"{v} = {a}", f"for {self.fresh('i')} in {it or 'range(' + str(r.choice([0, 1, 2])) + ')'}:", f"    {v} = {b}"]
+        else:
+            lines = [f"{v} = {a}", "try:", "    may_raise()", f"    {v} = {b}", "except ValueError:", "    pass"]
+        ns = dict(ty.eval_ns())
+        env[v] = ty.Union(*[NONE if m == "None" else ty.Lit(eval(m, ns)) for m in members])
+        return lines, v
+
+    def chain_operand(self, env, fam: str, v: str, literal: bool) -> str:
+        """A literal of the family, or an expression of the family whose value the checker does not know."""
+        r = self.rng
+        base = fam.replace("opt-", "")
+        if literal:
+            lits = [ty.lit_source(m.extra.v) for m in union_members(env[v]) if m.kind == "Lit"]
+            pool = (NUM_LITS[:7] if base == "num" else STR_LITS) + lits * 2
+            if base == "num" and lits and r.random() < 0.4:
+                # a threshold next to a member, so that the link splits the union
+                try:
+                    return repr(eval(r.choice(lits), dict(ty.eval_ns())) + r.choice([-1, 1]))
+                except Exception:  # noqa: BLE001
+                    pass
+            return r.choice(pool)
+        opts = []
+        want = (lambda t: t in (I, F, B_)) if base == "num" else (lambda t: t == S)
+        for k, t in env.items():
+            if k != v and want(t):
+                opts += [k, k]
+        if base == "num":
+            # zero() + c: a constant the checker knows only as int; which links hold differs from program to program
+            opts += ["zero()", f"(zero() + {r.choice([1, 2, 5, 10, 50])})", f"(zero() - {r.choice([1, 2, 5])})"]
+            sized = self.pick_var(env, is_sized)
+            if sized:
+                opts.append(f"len({sized})")
+        else:
+            other = self.pick_var(env)
+            if other:
+                opts.append(f"str({other})")
+            opts += [f"'{r.choice('abmqz')}'.lower()", "'q'.upper()"]
+        return r.choice(opts)
+
+    def chain(self, env, v: str) -> str:
+        """A comparison chain with two or three operators in which `v` is an operand; the other operands mix literals
+        and expressions the checker knows only by type, so some links narrow `v` and others say nothing."""
+        r = self.rng
+        fam = family(env[v])
+        nops = 2 if r.random() < 0.8 else 3
+        slots = nops + 1
+        vpos = r.randrange(slots)
+        kinds = []
+        for i in range(slots):
+            kinds.append("V" if i == vpos else r.choice("LN"))
+        if r.random() < 0.15:
+            kinds[r.choice([i for i in range(slots) if i != vpos])] = "V"  # v twice: `v == y == v`, `1 < v <= v`
+        # at least one link must be able to say nothing, and mostly one should be able to narrow
+        if "N" not in kinds and r.random() < 0.8:
+            kinds[r.choice([i for i in range(slots) if kinds[i] != "V"])] = "N"
+        ordered = not fam.startswith("opt-")
+        ops = []
+        for i in range(nops):
+            a, b = kinds[i], kinds[i + 1]
+            pool = list(ORDER_OPS if ordered else IDENT_OPS)
+            if not ordered and "N" in (a, b) and "V" not in (a, b):
+                pool = ["==", "!="]
+            if a == "L" and b == "L":
+                pool = ["<", "<=", "!=", "=="] if ordered else ["==", "!="]
+            if "is" in pool and "L" in (a, b) and "V" in (a, b):
+                pool = ["==", "!="]  # identity tests against literals other than None are left to cond()
+            ops.append(r.choice(pool))
+        operands = [v if k == "V" else self.chain_operand(env, fam, v, k == "L") for k in kinds]
+        if not ordered:
+            # None participates through identity links: `v is not None != y`, `y == v is None`
+            i = r.randrange(nops)
+            if "V" in (kinds[i], kinds[i + 1]):
+                j = i if kinds[i] != "V" else i + 1
+                if kinds[i] == kinds[i + 1] == "V":
+                    j = i + 1
+                operands[j] = "None"
+                ops[i] = r.choice(["is", "is not", "==", "!="])
+        if r.random() < 0.12 and kinds[-1] == "V":
+            # membership as the last link: `lo < v in (1, 2)`
+            operands.append("(" + self.chain_operand(env, fam, v, True) + ", " + self.chain_operand(env, fam, v, True) + ")")
+            ops.append(r.choice(["in", "not in"]))
+        src = operands[0]
+        for op, o in zip(ops, operands[1:]):
+            src += f" {op} {o}"
+        self.note("cond:chain-" + "".join(kinds) + ("-in" if ops[-1] in ("in", "not in") else ""))
+        self.note(f"cond:chain-{len(ops)}ops")
+        return src
+
+    def chain_var(self, env, lines: list) -> str:
+        """A variable for a chain: preferably one whose belief is a union of literals; made on the spot otherwise."""
+        r = self.rng
+        cands = [k for k, t in env.items() if family(t) and is_literal_union(t) and not k.startswith(("n", "i", "ok", "s"))]
+        plain = [k for k, t in env.items() if family(t) and not k.startswith(("n", "i", "ok", "s"))]
+        if cands and r.random() < 0.6:
+            return r.choice(cands)
+        if plain and r.random() < 0.25:
+            return r.choice(plain)
+        new, v = self.lit_union_local(env)
+        lines += new
+        return v
+
+    def chain_stmt(self, env, depth, in_loop) -> list:
+        """A chained comparison placed in every kind of position that decides control flow, with the compared
+        variable read where the chain is known true AND where it is known false."""
+        r = self.rng
+        lines: list = []
+        v = self.chain_var(env, lines)
+        c = self.chain(env, v)
+        ctx = r.choice(["if-else", "if-else", "early-return", "early-return-not", "not-if-else", "and-rhs", "or-rhs", "and-test", "or-test",
+                        "ifexp", "while", "while-not", "assert", "assert-not", "stored", "elif", "nested-not", "walrus", "guard", "comprehension"])
+        self.note("stmt:chain-in-" + ctx)
+        u = f"use({v})"
+        ind = lambda ls: ["    " + l for l in ls]  # noqa: E731
+        blk = lambda: self.block(dict(env), depth + 1, in_loop, n=1)  # noqa: E731
+        if ctx == "if-else":
+            lines += [f"if {c}:"] + ind([u] + blk()) + ["else:"] + ind([u] + blk())
+        elif ctx == "early-return":
+            lines += [f"if {c}:"] + ind([u, f"return {v}"])
+        elif ctx == "early-return-not":
+            lines += [f"if not ({c}):"] + ind([u, f"return {v}"])
+        elif ctx == "not-if-else":
+            lines += [f"if not ({c}):"] + ind([u] + blk()) + ["else:"] + ind([u])
+        elif ctx == "nested-not":
+            lines += [f"if not (not ({c})):"] + ind([u]) + ["else:"] + ind([u])
+        elif ctx == "and-rhs":
+            w = self.fresh()
+            lines += [f"{w} = ({c}) and ident({v})", f"use({w})"]
+            env[w] = ty.ANY
+        elif ctx == "or-rhs":
+            w = self.fresh()
+            lines += [f"{w} = ({c}) or ident({v})", f"use({w})"]
+            env[w] = ty.ANY
+        elif ctx in ("and-test", "or-test"):
+            other = "flip()" if r.random() < 0.4 else self.cond(env)[0]
+            j = "and" if ctx == "and-test" else "or"
+            test = f"({c}) {j} ({other})" if r.random() < 0.5 else f"({other}) {j} ({c})"
+            lines += [f"if {test}:"] + ind([u]) + ["else:"] + ind([u])
+        elif ctx == "ifexp":
+            w = self.fresh()
+            lines += [f"{w} = (ident({v}) if {c} else ({v},))", f"use({w})"]
+            env[w] = ty.ANY
+        elif ctx in ("while", "while-not"):
+            n = self.fresh("n")
+            test = c if ctx == "while" else f"not ({c})"
+            body = [u, f"{n} = {n} + 1", f"if {n} > 2:", "    break"]
+            if r.random() < 0.6:
+                # the compared variable is rebound in the body: the test is evaluated again on the new value
+                nsrc = r.choice(NUM_LITS if family(env[v]).endswith("num") else STR_LITS)
+                body.append(f"{v} = {nsrc}")
+                env[v] = ty.Union(env[v], ty.Lit(eval(nsrc, dict(ty.eval_ns()))))
+            lines += [f"{n} = zero()", f"while {test}:"] + ind(body) + ["else:"] + ind([u])
+            env[n] = I
+        elif ctx == "assert":
+            lines += [f"assert {c}"]
+        elif ctx == "assert-not":
+            lines += [f"assert not ({c})"]
+        elif ctx == "stored":
+            ok = self.fresh("ok")
+            lines += [f"{ok} = {c}", f"if {'not ' if r.random() < 0.4 else ''}{ok}:"] + ind([u]) + ["else:"] + ind([u])
+            env[ok] = B_
+        elif ctx == "elif":
+            lines += ["if flip():", "    pass", f"elif {c}:"] + ind([u]) + ["else:"] + ind([u])
+        elif ctx == "walrus":
+            ok = self.fresh("ok")
+            lines += [f"if ({ok} := {c}):"] + ind([u]) + ["else:"] + ind([u]) + [f"use({ok})"]
+            env[ok] = ty.ANY
+        elif ctx == "guard":
+            lines += [f"match {v}:", f"    case _ if {c}:"] + ind(ind([u])) + ["    case _:"] + ind(ind([u]))
+        else:
+            w = self.fresh()
+            lines += [f"{w} = [{v} for _ in range(2) if {c}]", f"use({w})"]
+            env[w] = ty.ANY
+        return lines + [u]
+
+    # ------------------------------------------------------------------ try statements whose handlers are left abruptly
+    def try_full(self, env, depth, in_loop) -> list:
+        """try / except / else / finally in which the handlers and the else block ASSIGN a variable and are then left
+        by raise / re-raise / a raising call / return / break / continue or go on to assign it again; the variable is
+        read in the finally body (which may hold another try statement) and after the statement."""
+        r = self.rng
+        v = self.fresh("t")
+        wrap_loop = not in_loop and r.random() < 0.25
+        loopy = in_loop or wrap_loop
+        ind = lambda ls: ["    " + l for l in ls]  # noqa: E731
+        beliefs = []
+
+        def value() -> str:
+            if r.random() < 0.65:
+                s = r.choice(LITS)
+                beliefs.append(ty.Lit(eval(s, dict(ty.eval_ns()))))
+                return s
+            s, t = self.expr(env, 1)
+            beliefs.append(t)
+            return s
+
+        def risky() -> list:
+            k = r.random()
+            if k < 0.55:
+                return [r.choice(["boom()", "raise ValueError('x')", "may_raise()", "may_raise()", "int('q')", "pass", "zero()", "raise KeyError('k')"])]
+            return [f"if {self.cond(env)[0]}:", "    " + r.choice(["boom()", "raise ValueError('x')", "raise KeyError('k')", "int('q')"])]
+
+        def leave(in_handler: bool) -> list:
+            opts = [("raise-other", "raise KeyError('k')"), ("raise-from", "raise ValueError('y') from None"), ("raising-call", "boom()"),
+                    ("maybe-raising-call", "may_raise()"), ("raising-call", "int('q')"), ("return", f"return {v}"),
+                    ("reassign", None), ("reassign", None), ("fall-through", "pass"), ("fall-through", "pass")]
+            if in_handler:
+                opts += [("re-raise", "raise")] * 3
+            if loopy:
+                opts += [("break", "break"), ("continue", "continue")]
+            label, s = r.choice(opts)
+            if s is None:
+                s = f"{v} = {value()}"
+            self.note("try-full:leave-" + ("handler" if in_handler else "else") + "-by-" + label)
+            if r.random() < 0.2 and label not in ("fall-through", "reassign"):
+                return [f"if {self.cond(env)[0]}:", "    " + s]
+            return [s]
+
+        def assigning_block(in_handler: bool) -> list:
+            out = [f"use({v})"] if r.random() < 0.5 else []
+            out.append(f"{v} = {value()}")
+            if r.random() < 0.3:
+                out.append(f"use({v})")
+            if r.random() < 0.25:
+                out += risky() + [f"{v} = {value()}"]
+            return out + leave(in_handler)
+
+        lines = [f"{v} = {value()}"]
+        body = []
+        if r.random() < 0.7:
+            body += risky()
+        if r.random() < 0.8:
+            body.append(f"{v} = {value()}")
+        if r.random() < 0.5 or not body:
+            body += risky()
+        if r.random() < 0.3:
+            body += self.block(dict(env), depth + 1, loopy, n=1)
+        tr = ["try:"] + ind(body)
+        nh = r.choice([0, 1, 1, 1, 2])
+        has_else = r.random() < (0.5 if nh else 0.0)
+        heads = ["except ValueError:", "except Exception:", "except (ValueError, KeyError):", f"except ValueError as {self.fresh('ex')}:", "except:"]
+        if nh == 2:
+            tr += ["except KeyError:"] + ind(assigning_block(True))
+        if nh:
+            tr += [r.choice(heads)] + ind(assigning_block(True))
+        if has_else:
+            tr += ["else:"] + ind(assigning_block(False))
+        fin = [f"use({v})"]
+        k = r.random()
+        if k < 0.3:
+            w = self.fresh()
+            fin += [f"{w} = {v}", f"use({w})"]
+        elif k < 0.6:
+            inner = ["try:"] + ind(risky() + [f"{v} = {value()}"]) + ["except ValueError:"] + ind([f"use({v})"] + ([f"{v} = {value()}"] if r.random() < 0.5 else []))
+            if r.random() < 0.3:
+                inner += ["else:"] + ind([f"use({v})"])
+            if r.random() < 0.4:
+                inner += ["finally:"] + ind([f"use({v})"])
+            fin += inner + [f"use({v})"]
+            self.note("try-full:try-in-finally")
+        tr += ["finally:"] + ind(fin)
+        self.note(f"stmt:try-full-{nh}handlers" + ("+else" if has_else else "") + "+finally")
+        tr += [f"use({v})"]
+        if r.random() < 0.6:
+            tr = ["try:"] + ind(tr) + [r.choice(["except Exception:", "except (ValueError, KeyError):", "except ValueError:"])] + ind([f"use({v})"])
+            if r.random() < 0.3:
+                tr += ["finally:"] + ind([f"use({v})"])
+            self.note("try-full:outer-try")
+        if wrap_loop:
+            tr = [f"for {self.fresh('i')} in range({r.choice([1, 2, 3])}):"] + ind(tr)
+            self.note("try-full:in-own-loop")
+        env[v] = ty.Union(*beliefs)
+        return lines + tr + [f"use({v})"]
 
     def match(self, env, depth, in_loop) -> list:
         r = self.rng
